@@ -345,6 +345,10 @@ def leanchecker(prop_id):
 # ----------------------------------------------------------------------------------------
 # run context
 # ----------------------------------------------------------------------------------------
+def _same_struct(a, b, rtol=1e-9):
+    return bool(close(a, b, rtol=rtol))
+
+
 class Ctx:
     def __init__(self, prop_id, tier, seed):
         self.prop = prop_id
@@ -405,6 +409,30 @@ class Ctx:
         if len(self.spec_bad) < 200:
             self.spec_bad.append({'tag': tag, 'input': jsonable(inp), 'detail': jsonable(detail)})
         return False
+
+    def number_types(self, tag, fn, x, inp, rtol=1e-9):
+        """`x` holds whole numbers only; the same numbers handed over as a float64 array, an int64 array
+        and a list of Python ints are the same parameters, so `fn` (a call into chi returning
+        floats / arrays / tuples of them) must return the same thing for each"""
+        xf = np.asarray(x, float)
+        if xf.size == 0 or not np.all(xf == np.round(xf)):
+            return None
+        try:
+            with np.errstate(all='ignore'):
+                base = fn(xf.copy())
+        except Exception:  # noqa  (the float64 call itself is judged elsewhere)
+            return None
+        variants = [('int64_array', xf.astype(np.int64)), ('python_int_list', [int(v) for v in xf])]
+        for name, v in variants:
+            try:
+                with np.errstate(all='ignore'):
+                    r = fn(v)
+            except Exception as e:  # noqa
+                self.spec('%s/%s' % (tag, name), False, dict(inp, whole_numbers=xf), {'raised': repr(e)[:200]})
+                continue
+            self.spec('%s/%s' % (tag, name), _same_struct(base, r, rtol), dict(inp, whole_numbers=xf),
+                      {'float64_array': base, name: r})
+        return base
 
     def guard(self, fn, *args, **kw):
         """run one case; an exception escaping from it (none occurs on the unchanged tree) is a
